@@ -266,7 +266,9 @@ def fmtBind : Option HandleErr → String
 def runSection (r : Report) (s : Section) : Report := Id.run do
   let mut r := r
   let mut st : St := {}
-  if kvStr s.cfg "kind" = "server" then st := { st with pr := (newServer []).router }
+  if kvStr s.cfg "kind" = "server" then
+    st := { st with pr := (newServer []).router }
+    r := r.addCover (if kvStr s.cfg "mw" = "1" then "server-native-middlewares-on" else "server-no-middlewares")
   for l in s.lines do
     r := { r with ops := r.ops + 1 }
     match l.op with
